@@ -65,8 +65,13 @@ def build(config, tier):
                                  fn="%s::length_squared" % N, tier=tr, desc="%s::length_squared == sum of the squared lanes (any association order)" % N))
         obs.extend(core.tree_obs("%s_element_sum" % pre, PROP, "let a = mk::<%s>(); let r = a.element_sum();" % N, [("r", [la("a", i) for i in range(n)])], w,
                                  fn="%s::element_sum" % N, tier=tr, desc="%s::element_sum == sum of the lanes (any association order)" % N))
-        obs.extend(core.tree_obs("%s_element_product" % pre, PROP, "let a = mk::<%s>(); let r = a.element_product();" % N, [("r", [la("a", i) for i in range(n)])], w, op="*",
-                                 fn="%s::element_product" % N, tier=tr, desc="%s::element_product == product of the lanes (any association order)" % N))
+        # SSE2 Vec3A pads the reduction with the constant 1.0: z * 1.0 is z for every z (IEEE identity), but neither
+        # back end proves two multipliers equal across that rewrite, so the leaf is stated the way it is computed
+        pl = [la("a", i) for i in range(n)]
+        if N == "Vec3A" and backend == "sse2":
+            pl[2] = "(%s * 1.0)" % pl[2]
+        obs.extend(core.tree_obs("%s_element_product" % pre, PROP, "let a = mk::<%s>(); let r = a.element_product();" % N, [("r", pl)], w, op="*",
+                                 fn="%s::element_product" % N, tier=tr, desc="%s::element_product == product of the lanes (any association order%s)" % (N, "; the z lane appears as z * 1.0, which is z" if pl[2:] and "1.0" in pl[2] else "")))
         if n == 3:
             idx = [(1, 2), (2, 0), (0, 1)]
             ens = " && ".join("(__verif::leq%d(r.to_array()[%d], %s * %s - %s * %s) || __verif::leq%d(r.to_array()[%d], %s * %s - %s * %s))" % (
@@ -97,8 +102,8 @@ def build(config, tier):
         l4 = "__verif::leq%dx%d" % (w, n)
         fmt = dict(N=N, sq=sq, w=w, t=t, n=n, l4=l4)
 
-        def clause(sfx, fn_, text, desc_, cls="structure", stubs=("sse", "uf_sqrt%d" % w)):
-            obs.append(Ob("%s_%s" % (pre, sfx), PROP, text.format(**fmt), fn="%s::%s" % (N, fn_), kind="lemma", solver="cvc5", stubs=list(stubs), cls=cls, tier=tr,
+        def clause(sfx, fn_, text, desc_, cls="structure", stubs=("sse", "uf_sqrt%d" % w), tier_=None):
+            obs.append(Ob("%s_%s" % (pre, sfx), PROP, text.format(**fmt), fn="%s::%s" % (N, fn_), kind="lemma", solver="cvc5", stubs=list(stubs), cls=cls, tier=tier_ or tr,
                           desc="%s::%s: %s" % (N, fn_, desc_)))
 
         clause("length", "length", "let a = mk::<{N}>(); check!(__verif::leq{w}(a.length(), {sq}(a.length_squared())), \"length == sqrt(length_squared)\");",
@@ -106,11 +111,11 @@ def build(config, tier):
         intr = T.simd and backend == "sse2"   # written with intrinsics: no callee to abstract
         mst = lambda *fns: tuple(["sse", "uf_sqrt%d" % w] + [("glam::%s::%s" % (N, f_), "crate::g_%s::%s" % (ln, f_)) for f_ in fns])
         clause("length_recip", "length_recip", "let a = mk::<{N}>(); check!(__verif::leq{w}(a.length_recip(), (1.0 as {t}) / a.length()), \"length_recip == 1/length\");",
-               "== 1 / length()" + ("" if intr else " (modular: length() replaced by an uninterpreted function of the operand)"), stubs=mst() if intr else mst("length"))
+               "== 1 / length()" + ("" if intr else " (modular: length() replaced by an uninterpreted function of the operand)"), stubs=mst() if intr else mst("length"), tier_="thorough" if intr else None)
         if intr:
             clause("normalize", "normalize", "let a = mk::<{N}>(); let s = a.length(); let nz = a.normalize().to_array(); let aa = a.to_array(); let rc = (1.0 as {t}) / s;\n    check!(%s, \"normalize lanes are v/len or v*(1/len)\");"
                    % " && ".join("(__verif::leq%d(nz[%d], aa[%d] / s) || __verif::leq%d(nz[%d], aa[%d] * rc))" % (w, i_, i_, w, i_, i_) for i_ in range(n)),
-                   "every lane is v/len or v*(1/len), len = length()")
+                   "every lane is v/len or v*(1/len), len = length()", tier_="thorough")
         else:
             clause("normalize", "normalize", "let a = mk::<{N}>(); check!({l4}(a.normalize().to_array(), (a * a.length_recip()).to_array()), \"normalize == v * length_recip\");",
                    "== v * length_recip() (modular: length_recip() replaced by an uninterpreted function of the operand)", stubs=mst("length_recip"))
@@ -125,7 +130,18 @@ def build(config, tier):
         clause("normalize_and_length", "normalize_and_length",
                "let a = mk::<{N}>(); let len = a.length(); let rc2 = (1.0 as {t}) / len; let ok2 = rc2.is_finite() && rc2 > 0.0; let (r, l) = a.normalize_and_length();\n"
                "    check!(if ok2 {{ {l4}(r.to_array(), (a * rc2).to_array()) && __verif::leq{w}(l, len) }} else {{ {l4}(r.to_array(), <{N}>::X.to_array()) && l == 0.0 }}, \"normalize_and_length\");",
-               "(X, 0) IFF !(rcp.is_finite() && rcp > 0) with rcp = 1/length, else (v * rcp, length)", cls="control")
+               "(X, 0) IFF !(rcp.is_finite() && rcp > 0) with rcp = 1/length(), else (v * rcp, length()) (modular in length)", cls="control", stubs=mst("length"))
+        # the sqrt family once more on the integer lattice with sqrt an uninterpreted function with values in {{1,2,4}} (all
+        # arithmetic exact, SAT): independent of how the code is written (intrinsics or calls)
+        vcl = (lambda vi: "mk::vec3a_of(sp::f32x3(%s))" % vi) if N == "Vec3A" else (lambda vi: "<%s>::from_array(sp::f%dx%d(%s))" % (N, w, n, vi))
+        obs.append(Ob("%s_sqrt_family_lat" % pre, PROP,
+                      ("unsafe {{ crate::uf::SQRT{w}_MODE = crate::uf::POW2; }} let ai = sp::lat{n}(2); let bi = sp::lat{n}(2); let a = %s; let b = %s; let s = {sq}(a.length_squared()); let aa = a.to_array();\n"
+                       "    check!(a.length() == s && a.length_recip() == (1.0 as {t}) / s && a.distance(b) == {sq}(a.distance_squared(b)), \"length, length_recip, distance on the lattice\");\n"
+                       "    let nz = a.normalize().to_array(); check!(%s, \"normalize lanes on the lattice\");\n"
+                       "    let (r, l) = a.normalize_and_length(); let rr = r.to_array(); check!(l == s && %s, \"normalize_and_length on the lattice\");") .format(**fmt)
+                      % (vcl("ai"), vcl("bi"), " && ".join("nz[%d] == aa[%d] / s" % (i_, i_) for i_ in range(n)), " && ".join("rr[%d] == aa[%d] / s" % (i_, i_) for i_ in range(n))),
+                      fn="%s::length/length_recip/distance/normalize/normalize_and_length" % N, kind="lemma", solver="cadical", stubs=["sse", "uf_sqrt%d" % w], cls="lattice", clauses=3, tier=tr,
+                      desc="%s: length, length_recip, distance, normalize, normalize_and_length on the integer lattice [-2,2]^%d with sqrt an uninterpreted function with values in {1,2,4} (so 1/len and v/len are exact): exactly sqrt(l2), 1/sqrt(l2), v/sqrt(l2)" % (N, n)))
         # structure of the combination helpers against the contracted operations
         ab = "let a = mk::<{N}>(); let b = mk::<{N}>(); "
         clause("lerp", "lerp", ab + "let s: {t} = vk::any(); check!({l4}(a.lerp(b, s).to_array(), (a * ((1.0 as {t}) - s) + b * s).to_array()) || {l4}(a.lerp(b, s).to_array(), (a + (b - a) * s).to_array()), \"lerp is affine in s\");",
